@@ -77,6 +77,43 @@ def o7(tier):
     return ob.done(cases=total)
 
 
+@guard
+def o8(tier):
+    """translator validation: the MIR interpreter, run on concrete inputs, must compute what the compiled function computes"""
+    import json, os, tempfile
+    from vlib import scen
+    from vlib.common import sh, VERIF, WORK
+    ob = Ob('O8', 'translator validation: for 300 concrete input vectors (boundary timestamps, equal / adjacent ids) produced by the compiled compare_display_keys / compare_processed_at_keys, '
+                  'the MIR interpreter computes the same Ordering (the engine\'s integer / EventId comparison and then_with models agree with the real code)', crates=('mdk-storage-traits',))
+    out = os.path.join(WORK, 'vectors-c18.jsonl')
+    if os.path.exists(out):
+        os.remove(out)
+    import shutil
+    shutil.copy(os.path.join(os.environ.get('VERIF_REPO', '/repo'), 'Cargo.lock'), os.path.join(VERIF, 'replays', 'scenarios', 'Cargo.lock'))
+    rc, o, dt = sh('cargo test --offline --test vectors', cwd=os.path.join(VERIF, 'replays', 'scenarios'), env={'CARGO_TARGET_DIR': os.path.join(WORK, 'scen-target'), 'VERIF_VECTORS_OUT': out}, timeout=1500)
+    if rc != 0 or not os.path.exists(out):
+        ob.r.broken('native vector generator failed: ' + o[-400:])
+        return ob.done(cases=0)
+    vecs = [json.loads(l) for l in open(out)]
+    fd = ob.fn('mdk-storage-traits', 'messages::types::Message::compare_display_keys')
+    fp = ob.fn('mdk-storage-traits', 'messages::types::Message::compare_processed_at_keys')
+    n = bad = 0
+    for v in vecs:
+        for f, key in ((fd, 'display'), (fp, 'processed')):
+            args = [ts(z3.BitVecVal(v['a1'], 64)), ts(z3.BitVecVal(v['a2'], 64)), eid(z3.BitVecVal(int(v['ia'], 16), 256)),
+                    ts(z3.BitVecVal(v['b1'], 64)), ts(z3.BitVecVal(v['b2'], 64)), eid(z3.BitVecVal(int(v['ib'], 16), 256))]
+            ps = [p for p in ob.explore(f, args) if p.kind == 'return']
+            n += 1
+            got = z3.simplify(M.ordering_val(ps[0].ret)).as_signed_long() if len(ps) == 1 else None
+            if got != v[key]:
+                bad += 1
+                ob.require(False, f'O8/{key}/interpreter-disagrees', f'{f.short}({v["a1"]}, {v["a2"]}, {v["ia"][:8]}.., {v["b1"]}, {v["b2"]}, {v["ib"][:8]}..): compiled code says {v[key]}, the MIR interpreter {got}')
+    ob.require(n >= 400, 'O8/vacuity', f'vectors compared: {n}')
+    ob.r.bounds = {'vectors': len(vecs), 'functions': 2}
+    ob.r.vacuity.append(f'{n} (function, vector) pairs compared, {bad} disagreements')
+    return ob.done(cases=n)
+
+
 def run(tier, seed, only=None):
     out = []
     if not only or 'O1' in only:
@@ -103,6 +140,8 @@ def run(tier, seed, only=None):
         out.append(o6(tier))
     if not only or 'O7' in only:
         out.append(o7(tier))
+    if not only or 'O8' in only:
+        out.append(o8(tier))
     if not only or 'O3' in only:
         from props import memobs
         out.append(memobs.messages_listing(tier, 'O3', 'O3'))
